@@ -836,6 +836,33 @@ orc_compiler_rewrite_insns (OrcCompiler *compiler)
     memcpy (&insn, program->insns + j, sizeof(OrcInstruction));
     opcode = insn.opcode;
 
+    /* the instruction itself plus at most one load per source and one
+     * store per destination must fit */
+    if (compiler->error ||
+        compiler->n_insns + 1 + ORC_STATIC_OPCODE_N_SRC +
+        ORC_STATIC_OPCODE_N_DEST > ORC_N_INSNS) {
+      int need = 1;
+      for (i = 0; i < ORC_STATIC_OPCODE_N_SRC; i++) {
+        if (opcode->src_size[i] != 0 &&
+            !(opcode->flags & ORC_STATIC_OPCODE_LOAD) &&
+            compiler->vars[insn.src_args[i]].vartype != ORC_VAR_TYPE_TEMP)
+          need++;
+      }
+      for (i = 0; i < ORC_STATIC_OPCODE_N_DEST; i++) {
+        if (opcode->dest_size[i] != 0 &&
+            !(opcode->flags & ORC_STATIC_OPCODE_STORE) &&
+            compiler->vars[insn.dest_args[i]].vartype == ORC_VAR_TYPE_DEST)
+          need++;
+      }
+      if (compiler->error || compiler->n_insns + need > ORC_N_INSNS) {
+        if (!compiler->error) {
+          ORC_COMPILER_ERROR (compiler,
+              "too many instructions after adding loads and stores");
+        }
+        return;
+      }
+    }
+
     if (!(opcode->flags & ORC_STATIC_OPCODE_LOAD)) {
       for(i=0;i<ORC_STATIC_OPCODE_N_SRC;i++){
         OrcVariable *var;
@@ -1270,6 +1297,11 @@ orc_compiler_dup_temporary (OrcCompiler *compiler, int var, int j)
 {
   int i = ORC_VAR_T1 + compiler->n_temp_vars + compiler->n_dup_vars;
 
+  if (i >= ORC_N_COMPILER_VARIABLES) {
+    ORC_COMPILER_ERROR (compiler, "too many temporary variables");
+    return var;
+  }
+
   compiler->vars[i].vartype = ORC_VAR_TYPE_TEMP;
   compiler->vars[i].size = compiler->vars[var].size;
   compiler->vars[i].name = orc_malloc (strlen(compiler->vars[var].name) + 10);
@@ -1283,6 +1315,12 @@ static int
 orc_compiler_new_temporary (OrcCompiler *compiler, int size)
 {
   int i = ORC_VAR_T1 + compiler->n_temp_vars + compiler->n_dup_vars;
+
+  if (i >= ORC_N_COMPILER_VARIABLES) {
+    ORC_COMPILER_ERROR (compiler, "too many temporary variables");
+    /* any valid slot: compilation stops at the next error check */
+    return ORC_N_COMPILER_VARIABLES - 1;
+  }
 
   compiler->vars[i].vartype = ORC_VAR_TYPE_TEMP;
   compiler->vars[i].size = size;
